@@ -37,6 +37,29 @@ class PyRaiseIf(Exception):
 
 
 # --------------------------------------------------------------------------------------- values
+class CplxV:
+    """An opaque complex number or complex array (spectra, transfer functions): only an identity - a z3 Int term - is known.  Arithmetic on such values is
+    the uninterpreted function COP(operator, left identity, right identity); real operands enter through CREAL (a scalar) / CARR (an array's content and
+    length); element stores through CSTORE.  What can be proved about code computing with them is which operands, in which order, with which operator reach
+    which result - the routing - and nothing about the numbers (A-COMPLEX)."""
+
+    def __init__(self, term):
+        self.term = term
+
+    def __repr__(self):
+        return f"CplxV({self.term})"
+
+
+COP = z3.Function("complex_op", z3.IntSort(), z3.IntSort(), z3.IntSort(), z3.IntSort())
+CREAL = z3.Function("complex_of_real", z3.RealSort(), z3.IntSort())
+CARR = z3.Function("complex_of_array", z3.ArraySort(z3.IntSort(), z3.RealSort()), z3.IntSort(), z3.IntSort())
+CBOOLARR = z3.Function("complex_index_of_mask", z3.ArraySort(z3.IntSort(), z3.BoolSort()), z3.IntSort(), z3.IntSort())
+CCONST = z3.Function("complex_constant", z3.RealSort(), z3.RealSort(), z3.IntSort())
+CSTORE = z3.Function("complex_store", z3.IntSort(), z3.IntSort(), z3.IntSort(), z3.IntSort())      # (array, index or mask identity, value) -> array
+CGET = z3.Function("complex_get", z3.IntSort(), z3.IntSort(), z3.IntSort())                         # (array, index or mask identity) -> value(s)
+COPS = {"Add": 1, "Sub": 2, "Mult": 3, "Div": 4, "Pow": 5}
+
+
 class Tup(tuple):
     pass
 
@@ -385,7 +408,7 @@ class Exec:
         if isinstance(v, (bool, int, float)):
             return lit(v)
         if isinstance(v, complex):
-            raise Undecided("complex literal")
+            return CplxV(CCONST(lit(float(v.real)), lit(float(v.imag))))
         raise Undecided(f"constant {v!r}")
 
     def ev_Name(self, e, st):
@@ -727,7 +750,29 @@ class Exec:
             raise Undecided("general power")
         raise Undecided(f"binary operator {type(op).__name__}")
 
+    def cplx_id(self, st, v):
+        """identity of an operand of complex arithmetic"""
+        if isinstance(v, CplxV):
+            return v.term
+        if isinstance(v, ARef):
+            d = self.arr(st, v)
+            if d.rank != 1:
+                raise Undecided("complex arithmetic with a 2-D real array")
+            if d.elem == "bool":
+                return CBOOLARR(d.data, d.shape[0])
+            data = d.data if d.elem == "real" else z3.Lambda([z3.Int("i!c")], z3.ToReal(z3.Select(d.data, z3.Int("i!c"))))
+            return CARR(data, d.shape[0])
+        x = lit(v)
+        if is_z3(x) and (z3.is_int(x) or z3.is_real(x)):
+            return CREAL(real(x))
+        raise Undecided(f"complex arithmetic with a {type(v).__name__}")
+
     def binop(self, op, a, b, st, node):
+        if isinstance(a, CplxV) or isinstance(b, CplxV):
+            code = COPS.get(type(op).__name__)
+            if code is None:
+                raise Undecided(f"complex arithmetic with operator {type(op).__name__}")
+            return CplxV(COP(z3.IntVal(code), self.cplx_id(st, a), self.cplx_id(st, b)))
         if isinstance(a, ARef) or isinstance(b, ARef):
             return self.map2(st, a, b, lambda x, y: self.scalar_binop(op, x, y, st, node), node)
         if isinstance(a, StrV) and isinstance(b, StrV) and isinstance(op, ast.Add):
@@ -934,6 +979,10 @@ class Exec:
             raise Undecided("index into a concrete string that is not definite or out of range")
         if isinstance(v, StrV) and isinstance(sl, ast.Slice):
             return StrV("<slice of a string>")       # string content is opaque
+        if isinstance(v, CplxV):
+            if isinstance(sl, (ast.Slice, ast.Tuple)):
+                raise Undecided("slice of an opaque complex array")
+            return CplxV(CGET(v.term, self.cplx_id(st, self.ev(sl, st))))
         if isinstance(v, OpaqueV):
             return OpaqueV(v.name + "[...]")
         if isinstance(v, ModV) and "__getitem__" in v.attrs:
@@ -1434,6 +1483,12 @@ class Exec:
             return
         if isinstance(tgt, ast.Subscript):
             base = self.ev(tgt.value, st)
+            if isinstance(base, CplxV):
+                # z[i] = w / z[mask] = w on an opaque complex array held in a local name: the name now denotes the array after the store
+                if not isinstance(tgt.value, ast.Name) or isinstance(tgt.slice, (ast.Slice, ast.Tuple)):
+                    raise Undecided("store into an opaque complex array that is not a local name, or through a slice")
+                st.env[tgt.value.id] = CplxV(CSTORE(base.term, self.cplx_id(st, self.ev(tgt.slice, st)), self.cplx_id(st, val)))
+                return
             if isinstance(base, ARef):
                 return self.store_arr(st, base, tgt.slice, val, node)
             from . import objects
